@@ -660,8 +660,14 @@ func (c *UDPConn) ReadMsgUDPAddrPort(b, oob []byte) (n, oobn, flags int, addr ne
 				net_.R.Fault("rx-stamp-ns-form")
 			}
 			oobn = putCmsgTimespec(oob, d.RxStamp)
+			if oobn == 0 {
+				flags |= unix.MSG_CTRUNC // the control buffer handed in cannot hold the message
+			}
 		default:
 			oobn = putCmsgTimestamping(oob, d.RxStamp)
+			if oobn == 0 {
+				flags |= unix.MSG_CTRUNC
+			}
 		}
 	}
 	net_.mu.Lock()
